@@ -43,7 +43,7 @@ func genPackSetC52(t *rapid.T) packSetC52 {
 	case "every-first-byte":
 		n = 256 + rapid.IntRange(0, 64).Draw(t, "extra")
 	default:
-		n = rapid.OneOf(rapid.IntRange(2, 12), rapid.IntRange(2, 200)).Draw(t, "n")
+		n = rapid.OneOf(rapid.IntRange(2, 12), rapid.IntRange(2, 64), rapid.IntRange(100, 200)).Draw(t, "n")
 	}
 	fixed := byte(rapid.IntRange(0, 255).Draw(t, "fixedByte"))
 	few := []byte{fixed, byte(rapid.IntRange(0, 255).Draw(t, "few2")), byte(rapid.IntRange(0, 255).Draw(t, "few3"))}
@@ -237,111 +237,114 @@ func TestVerifC52PercentageAndSize(t *testing.T) {
 		ps := genPackSetC52(t)
 		orig := copyPacksC52(ps.packs)
 		n := len(ps.packs)
-		p1 := genPct.Draw(t, "p1")
-		p2 := genPct.Draw(t, "p2")
-		if p1 > p2 {
-			p1, p2 = p2, p1
-		}
-		classes := []string{"dist:" + ps.dist}
-
-		check := func(what string, sel map[restic.ID]int64, all bool) {
-			if !subsetOfC52(sel, ps.packs) {
-				t.Fatalf("%s selects something that is not a pack of the repository", what)
+		// several percentage/size selections per pack set
+		for rep := 0; rep < 8; rep++ {
+			p1 := genPct.Draw(t, "p1")
+			p2 := genPct.Draw(t, "p2")
+			if p1 > p2 {
+				p1, p2 = p2, p1
 			}
-			if n > 0 && len(sel) == 0 {
-				t.Fatalf("%s reads no pack although the repository has %d", what, n)
+			classes := []string{"dist:" + ps.dist}
+
+			check := func(what string, sel map[restic.ID]int64, all bool) {
+				if !subsetOfC52(sel, ps.packs) {
+					t.Fatalf("%s selects something that is not a pack of the repository", what)
+				}
+				if n > 0 && len(sel) == 0 {
+					t.Fatalf("%s reads no pack although the repository has %d", what, n)
+				}
+				if all && !samePacksC52(sel, ps.packs) {
+					t.Fatalf("%s reads %d of %d packs, want all", what, len(sel), n)
+				}
 			}
-			if all && !samePacksC52(sel, ps.packs) {
-				t.Fatalf("%s reads %d of %d packs, want all", what, len(sel), n)
+
+			s1 := selectRandomPacksByPercentage(ps.packs, p1)
+			s2 := selectRandomPacksByPercentage(ps.packs, p2)
+			check(fmt.Sprintf("%v%%", p1), s1, p1 == 100)
+			check(fmt.Sprintf("%v%%", p2), s2, p2 == 100)
+			if len(s1) > len(s2) {
+				t.Fatalf("%v%% reads %d packs but %v%% reads only %d (of %d)", p1, len(s1), p2, len(s2), n)
 			}
-		}
+			check("100%", selectRandomPacksByPercentage(ps.packs, 100), true)
+			// at most the requested share (plus the one pack that is always read)
+			if float64(len(s2)) > float64(n)*p2/100+1 {
+				t.Fatalf("%v%% of %d packs reads %d packs", p2, n, len(s2))
+			}
+			switch {
+			case len(s2) == n && n > 0:
+				classes = append(classes, "pct:all")
+			case len(s2) == 1:
+				classes = append(classes, "pct:one")
+			default:
+				classes = append(classes, "pct:some")
+			}
 
-		s1 := selectRandomPacksByPercentage(ps.packs, p1)
-		s2 := selectRandomPacksByPercentage(ps.packs, p2)
-		check(fmt.Sprintf("%v%%", p1), s1, p1 == 100)
-		check(fmt.Sprintf("%v%%", p2), s2, p2 == 100)
-		if len(s1) > len(s2) {
-			t.Fatalf("%v%% reads %d packs but %v%% reads only %d (of %d)", p1, len(s1), p2, len(s2), n)
-		}
-		check("100%", selectRandomPacksByPercentage(ps.packs, 100), true)
-		// at most the requested share (plus the one pack that is always read)
-		if float64(len(s2)) > float64(n)*p2/100+1 {
-			t.Fatalf("%v%% of %d packs reads %d packs", p2, n, len(s2))
-		}
-		switch {
-		case len(s2) == n && n > 0:
-			classes = append(classes, "pct:all")
-		case len(s2) == 1:
-			classes = append(classes, "pct:one")
-		default:
-			classes = append(classes, "pct:some")
-		}
+			// through the option string
+			pstr := fmt.Sprintf("%v%%", p2)
+			if err := checkFlags(CheckOptions{ReadDataSubset: pstr}); err != nil {
+				t.Fatalf("checkFlags(%q): %v", pstr, err)
+			}
+			f, err := buildPacksFilter(CheckOptions{ReadDataSubset: pstr}, restic.NewNoopPrinter(), false)
+			if err != nil || f == nil {
+				t.Fatalf("buildPacksFilter(%q): %v", pstr, err)
+			}
+			viaFlags := f(ps.packs)
+			check("--read-data-subset="+pstr, viaFlags, p2 == 100)
+			if len(viaFlags) != len(s2) {
+				t.Fatalf("--read-data-subset=%s reads %d packs, selectRandomPacksByPercentage reads %d", pstr, len(viaFlags), len(s2))
+			}
 
-		// through the option string
-		pstr := fmt.Sprintf("%v%%", p2)
-		if err := checkFlags(CheckOptions{ReadDataSubset: pstr}); err != nil {
-			t.Fatalf("checkFlags(%q): %v", pstr, err)
-		}
-		f, err := buildPacksFilter(CheckOptions{ReadDataSubset: pstr}, restic.NewNoopPrinter(), false)
-		if err != nil || f == nil {
-			t.Fatalf("buildPacksFilter(%q): %v", pstr, err)
-		}
-		viaFlags := f(ps.packs)
-		check("--read-data-subset="+pstr, viaFlags, p2 == 100)
-		if len(viaFlags) != len(s2) {
-			t.Fatalf("--read-data-subset=%s reads %d packs, selectRandomPacksByPercentage reads %d", pstr, len(viaFlags), len(s2))
-		}
+			// sizes
+			var size int64
+			switch rapid.IntRange(0, 5).Draw(t, "sizeKind") {
+			case 0:
+				size = 1
+			case 1:
+				size = max(ps.total, 1)
+			case 2:
+				size = max(ps.total-1, 1)
+			case 3:
+				size = ps.total + int64(rapid.IntRange(1, 1<<30).Draw(t, "over"))
+			case 4:
+				size = int64(rapid.Uint64Range(1, 1<<62).Draw(t, "anySize"))
+			default:
+				size = 1 + int64(rapid.Uint64Range(0, uint64(max(ps.total, 1))).Draw(t, "below"))
+			}
+			if ps.total > 0 {
+				clamped := min(size, ps.total)
+				bySize := selectRandomPacksByFileSize(ps.packs, clamped, ps.total)
+				check(fmt.Sprintf("size %d of %d", clamped, ps.total), bySize, clamped == ps.total)
+			}
+			sstr := fmt.Sprintf("%dB", size)
+			if err := checkFlags(CheckOptions{ReadDataSubset: sstr}); err != nil {
+				t.Fatalf("checkFlags(%q): %v", sstr, err)
+			}
+			fs, err := buildPacksFilter(CheckOptions{ReadDataSubset: sstr}, restic.NewNoopPrinter(), false)
+			if err != nil || fs == nil {
+				t.Fatalf("buildPacksFilter(%q): %v", sstr, err)
+			}
+			viaSize := fs(ps.packs)
+			check("--read-data-subset="+sstr, viaSize, size >= ps.total)
+			switch {
+			case size >= ps.total:
+				classes = append(classes, "size:>=repository")
+			case len(viaSize) == 1:
+				classes = append(classes, "size:one")
+			default:
+				classes = append(classes, "size:some")
+			}
 
-		// sizes
-		var size int64
-		switch rapid.IntRange(0, 5).Draw(t, "sizeKind") {
-		case 0:
-			size = 1
-		case 1:
-			size = max(ps.total, 1)
-		case 2:
-			size = max(ps.total-1, 1)
-		case 3:
-			size = ps.total + int64(rapid.IntRange(1, 1<<30).Draw(t, "over"))
-		case 4:
-			size = int64(rapid.Uint64Range(1, 1<<62).Draw(t, "anySize"))
-		default:
-			size = 1 + int64(rapid.Uint64Range(0, uint64(max(ps.total, 1))).Draw(t, "below"))
-		}
-		if ps.total > 0 {
-			clamped := min(size, ps.total)
-			bySize := selectRandomPacksByFileSize(ps.packs, clamped, ps.total)
-			check(fmt.Sprintf("size %d of %d", clamped, ps.total), bySize, clamped == ps.total)
-		}
-		sstr := fmt.Sprintf("%dB", size)
-		if err := checkFlags(CheckOptions{ReadDataSubset: sstr}); err != nil {
-			t.Fatalf("checkFlags(%q): %v", sstr, err)
-		}
-		fs, err := buildPacksFilter(CheckOptions{ReadDataSubset: sstr}, restic.NewNoopPrinter(), false)
-		if err != nil || fs == nil {
-			t.Fatalf("buildPacksFilter(%q): %v", sstr, err)
-		}
-		viaSize := fs(ps.packs)
-		check("--read-data-subset="+sstr, viaSize, size >= ps.total)
-		switch {
-		case size >= ps.total:
-			classes = append(classes, "size:>=repository")
-		case len(viaSize) == 1:
-			classes = append(classes, "size:one")
-		default:
-			classes = append(classes, "size:some")
-		}
-
-		if !samePacksC52(orig, ps.packs) {
-			t.Fatalf("a subset selection modified its input")
-		}
-		key := ""
-		if n >= 2 {
-			key = fmt.Sprintf("pct|%s|%d|%v|%v|%d", ps.dist, n, p1, p2, size)
-		}
-		st.Case(key, classes...)
-		if st.WantSample() {
-			st.Sample(map[string]any{"dist": ps.dist, "packs": n, "p": p2, "selected": len(s2), "size": size, "selected_by_size": len(viaSize)})
+			if !samePacksC52(orig, ps.packs) {
+				t.Fatalf("a subset selection modified its input")
+			}
+			key := ""
+			if n >= 2 {
+				key = fmt.Sprintf("pct|%s|%d|%v|%v|%d", ps.dist, n, p1, p2, size)
+			}
+			st.Case(key, classes...)
+			if st.WantSample() {
+				st.Sample(map[string]any{"dist": ps.dist, "packs": n, "p": p2, "selected": len(s2), "size": size, "selected_by_size": len(viaSize)})
+			}
 		}
 	})
 }
